@@ -3,6 +3,14 @@
 import json, sys
 pid, wt = sys.argv[1], sys.argv[2]
 n = sys.argv[3] if len(sys.argv) > 3 else "2"
+import glob, os
+avoid = []
+for m in sorted(glob.glob(f'/verif/seeded/{pid}-*/meta.json')):
+    try:
+        avoid.append('   - ' + json.load(open(m))['summary'].replace('\n', ' ')[:230])
+    except Exception:
+        pass
+AVOID = ("\nChanges of the following kinds have ALREADY been produced by others -- do NOT repeat them or close variants; find different functions / mechanisms:\n" + "\n".join(avoid) + "\n") if avoid else ""
 for l in open('/verif/properties.jsonl'):
     p = json.loads(l)
     if p['id'] == pid:
@@ -24,6 +32,7 @@ Your task: produce {n} DIFFERENT realistic code changes ("seeded bugs") to the l
  (c) needs something SPECIFIC to manifest -- an unusual input, a particular multi-step sequence of operations, a corner case (empty collection, a tie, a value exactly on a boundary, a particular dimension or grid type, aliasing of two arguments, a particular option combination), or two cooperating edits that each look fine alone -- NOT something ordinary use would expose at once.  The change should look like a plausible refactoring/optimisation/typo a maintainer could make, touching few lines. Do not touch tests/.
 For each change also write a small self-contained demonstration program (plain python, run as `cd {wt} && /venv/bin/python demo_k.py`) that exits non-zero (assert failure) WITH the change and exits 0 WITHOUT it (on the pristine checkout), and that demonstrates a violation of the property as stated (not of some other behaviour).
 
+{AVOID}
 Procedure for each change k = 1..{n}:
   1. start from the pristine tree (`git -C {wt} checkout -- droplets`), make the edit, save it as `git -C {wt} diff > {wt}/seed_k.diff`
   2. run the whole test suite with the edit; all tests must pass (if not, pick another change)
